@@ -25,7 +25,9 @@ def model_struct(m):
         d = dict(cls=type(w).__name__, tag=w.tag, nseg=w.n_segments, r=float(w.r_orig),
                  p1=[float(x) for x in w.p1], p2=[float(x) for x in w.p2])
         if isinstance(w, M.Wire):
-            d.update(segtype=w.segtype, tmin=w.taper_min, tmax=w.taper_max)
+            # taper limits matter only while the wire is tapered (a taper that cannot be built falls back to equal segments,
+            # the limits then stay on the object unused and are not written)
+            d.update(segtype=w.segtype, tmin=w.taper_min if w.segtype else None, tmax=w.taper_max if w.segtype else None)
         d['seg'] = [[float(x) for x in s.p2] for s in w.segments]
         # distributed loads are properties of the geo object (a junction pulse takes them from both of its wires,
         # an insulation also changes the effective radius), whether or not the object owns a pulse
